@@ -118,7 +118,7 @@ def register(reg):
        requires=INV, modifies=[],
        ensures=[("path", "fresh(result[1]) and PathOK(self.partition, result[1])", "C05 C04"),
                 ("end", "result[0] is result[1][len(result[1]) - 1] and result[1][0] is self.partition.root "
-                        "and result[0].children is None", "C05 C06"),
+                        "and result[0].children is None", "C03 C05 C06"),
                 ("greedy", "Greedy(result[1])", "C05")])
     loop("T_HOO.optTraverse", 0, props="C05", modifies=["list(path)"],
          decreases="self.partition.depth - curr_node.depth",
@@ -186,7 +186,7 @@ def register(reg):
        ensures=INV + with_w(AFTER + [RULE], W_END))
     PULL_ENS = [
         ("path", "defined(self.path) and fresh(self.path) and PathOK(self.partition, self.path)", "C04 C05"),
-        ("end", "self.path[0] is self.partition.root and self.path[len(self.path) - 1].children is None", "C05 C06"),
+        ("end", "self.path[0] is self.partition.root and self.path[len(self.path) - 1].children is None", "C03 C05 C06"),
         ("greedy", "Greedy(self.path)", "C05"),
         ("result", "result is self.path[len(self.path) - 1].c_point", "C01 C04"),
     ]
@@ -216,7 +216,7 @@ def register(reg):
         out = []
         for c in cl:
             if isinstance(c, tuple):
-                out.append((c[0], r(c[1])))
+                out.append((c[0], r(c[1])) + tuple(c[2:3]))
             else:
                 body, gens, cases = c.cases
                 out.append(by_cases(c.label, r(body), r(gens), [r(x) for x in cases], props=" ".join(sorted(c.props))))
@@ -231,15 +231,15 @@ def register(reg):
         return c[0] if isinstance(c, tuple) else c.label
     CARRY = [(c[0], c[1]) for c in INV] + sub_end([c for c in AFTER if lab(c) in ("credited", "others")]) + [
         ("formula", "all(UFormula_HOO(self, %s[h][k]) %s)" % (NL, ALLN))]
-    reg.cut("T_HOO.updateAllTree", "call:updateUvalueTree#0", props="C03 C04 C05 C06", strong=True, clauses=CARRY + SAME_TREE)
-    reg.cut("T_HOO.updateAllTree", "if#0", props="C03 C04 C05 C06", strong=True,
-            clauses=[(c[0], c[1]) for c in INV] + sub_end([c for c in AFTER if lab(c) != "Bcons"] + [RULE]) + [
+    reg.cut("T_HOO.updateAllTree", "call:updateUvalueTree#0", props="C01", strong=True, clauses=CARRY + SAME_TREE)
+    reg.cut("T_HOO.updateAllTree", "if#0", props="C01", strong=True,
+            clauses=list(INV) + sub_end([c for c in AFTER if lab(c) != "Bcons"] + [RULE]) + [
                 ("decomp", "all((h <= old(self.partition.depth) and k < old(len(%s[h])) and %s[h][k] is old(%s[h][k])) "
-                           "or (%s[h][k] in path[len(path) - 1].children) %s)" % (NL, NL, NL, NL, ALLN)),
+                           "or (%s[h][k] in path[len(path) - 1].children) %s)" % (NL, NL, NL, NL, ALLN), "C03 C04 C05"),
                 ("path", "PathOK(self.partition, path) and all(path[k] is old(path[k]) for k in range(len(path))) "
-                         "and len(path) == old(len(path))"),
+                         "and len(path) == old(len(path))", "C03 C04"),
                 ("kids-u", "implies(path[len(path) - 1].children is not None, all(path[len(path) - 1].children[j].u_value == inf "
                            "and path[len(path) - 1].children[j].children is None "
                            "and path[len(path) - 1].children[j] in %s[path[len(path) - 1].children[j].depth] "
-                           "for j in range(len(path[len(path) - 1].children))))" % NL),
+                           "for j in range(len(path[len(path) - 1].children))))" % NL, "C05 C06"),
             ])
